@@ -72,9 +72,18 @@ def history(rng, nops=(2, 8), invalid_share=0.3, dtype_focus=False):
             nb = len(bb["bins"])
             dt = rng.choice(DTYPES if dtype_focus else ["int64", "float64", "int32", "float32"])
             isint = dt.startswith("int")
-            big = dtype_focus and rng.random() < 0.3
-            f = [(rng.choice([32000, 30000, 100, 7]) if big else rng.randint(0, 9)) if isint else rng.randint(0, 36) / 4 for _ in range(nb)]
-            e = None if rng.random() < 0.5 else [(rng.choice([32000, 150, 3]) if big else rng.randint(0, 9)) if isint else rng.randint(0, 36) / 4 for _ in range(nb)]
+            big = dtype_focus and rng.random() < 0.4
+            if big:
+                pool = {"int16": [32000, 30000, 100, 7], "int32": [32000, 70000, 2000000000, 7], "int64": [32000, 70000, 3000000000, 7],
+                        "float16": [60000.0, 100.0, 2.5], "float32": [70000.0, 1e5, 2.5, 3e38], "float64": [70000.0, 1e5, 2.5, 1e39],
+                        "float128": [70000.0, 1e5, 2.5, 1e39]}[dt]
+                f = [rng.choice(pool[:3] + [7, 17]) for _ in range(nb)]
+                e = None if rng.random() < 0.4 else [rng.choice(pool + [3, 137]) for _ in range(nb)]
+                if not isint:
+                    f = [float(x) for x in f]
+            else:
+                f = [rng.randint(0, 9) if isint else rng.randint(0, 36) / 4 for _ in range(nb)]
+                e = None if rng.random() < 0.5 else [rng.randint(0, 9) if isint else rng.randint(0, 36) / 4 for _ in range(nb)]
             ops.append({"op": "of_arrays", "out": out, "binning": bb, "freq": [rs(x) for x in f],
                         "err2": None if e is None else [rs(x) for x in e], "under": rs(rng.randint(0, 3)),
                         "over": rs(rng.randint(0, 3)), "inner": "0", "dtype": dt, "keep": rng.random() < 0.85})
